@@ -22,6 +22,10 @@ CHECKS={
         "decides the second sentence of C07 and the fault-history part of its quantifier; arbitrary source text and arbitrary built-in argument tuples are pure functions of the input and are not decided here (DESIGN.md §5 C07)","DESIGN.md §5 C07"),
  'C19':("exploration","seeded search over allocation histories with a bounded live set: 2-30 blocks of garbage (acyclic, self-cycles, rings of 2-9 boxes, rings through box/vector/struct field, self-capturing closures, storage held only by a dead continuation, a finished handler or shadowed globals), live-set changes and weak boxes, forced collections at rate {0,1/64,1/8}, heap growth chunk and recycling threshold randomised, JIT on/off; after every block and two full collections at a quiescent point: live slots <= warm-up baseline + model live set + a constant slack (24 slots; a leak grows by >= 40 slots per batch), free-slot accounting == mark bits, live data reads back, weak boxes of dropped targets are cleared",
         "bounded-residue oracle (a few slots may stay referenced from stale temporaries); single script thread; storage held only by shadowed globals is expected back once the recycling threshold has been passed","DESIGN.md §5 C19"),
+ 'C15':("exploration","seeded search over interleavings of 2-8 real script threads (main + spawn-native-thread) running generated mixes of computation, allocation, set!/checked reads of shared globals, channel sends, mutex sections, collections, thread-local storage and nested spawns, under a token scheduler that decides at every instruction dispatch and inside every window of the stop-the-world handshake (publish, after finish, before retract, stop/resume, scan begin/end, heap lock taken), with forced full collections up to every allocation, JIT on/off; monitors: no thread runs while its stack or global table is being read or replaced by a stopper (scan-overlap), every global's final value is some thread's last write and every read returns a written value, host panics",
+        "sequentially consistent interleavings at hook granularity (weak-memory outcomes of the Relaxed accesses are not modelled); native code is preempted only at hooked helpers and where it re-enters the dispatch loop; the marker pool runs unscheduled while all script threads are stopped or wait for the token","DESIGN.md §5 C15/C16"),
+ 'C16':("exploration","same simulated runs as C15, biased towards blocking (channels, joins, mutexes, blocking calls through map): the scheduler turns every blocking call into a polled wait, so a state in which every live thread waits and stays waiting over repeated confirmation rounds is reported as a deadlock with the blocked sites and which of the blocked threads were not published; a step budget bounds livelock; join results, per-sender channel order and mutex-protected counters are compared with the generator's model",
+        "programs are deadlock-free at script level by construction (matching send/receive counts, acyclic joins), so every deadlock is the runtime's; same scheduling assumptions as C15","DESIGN.md §5 C15/C16"),
  'C04':("exploration","seeded search over collection schedules (a full collection forced at PRNG-chosen allocations, up to every allocation, plus explicit requests) for generated programs that park the only reference to boxes / mutable vectors / mutable struct fields / assigned captured variables in one of 23 root classes, churn the allocator and read back; oracle = generator-known contents + stale-slot monitor + free-slot accounting; JIT on/off and heap growth chunk are swarm dimensions",
         "collections are forced only where the runtime itself may collect; one script thread (threaded roots are exercised in the C15/C16 runs); the marker pool's internal races are not scheduled","DESIGN.md §5 C04"),
 }
